@@ -739,6 +739,174 @@ func replayFile(e *hk.Env, path string) error {
 	return nil
 }
 
+// ---- one long single-threaded churn history, judged on the Go side by the specification only ----
+//
+// ~10,000 (thorough 60,000) operations on one filter: thousands of distinct ranges added, most of them
+// removed again in random order, every removed range probed right after its removal and again at the end.
+// Replaying this in the extracted model (list-based sets, a few thousand keys) would take minutes, so this
+// ONE history is judged here against a plain map of live (network, prefix length) keys - the same live-set
+// definition as Lib/CidrSet.v: Contains(ip) <=> exists n, live[(ip & mask(n), n)] - and failures are VIOL lines.
+type specSet struct {
+	live map[[2]uint32]bool
+	all  bool
+}
+
+func (s *specSet) covered(ip uint32) bool {
+	if s.all {
+		return true
+	}
+	for n := 1; n <= 32; n++ {
+		if s.live[[2]uint32{ip & maskOf(n), uint32(n)}] {
+			return true
+		}
+	}
+	return false
+}
+
+func churn(e *hk.Env, r *hk.Rng) {
+	nAdd, nDel := 4600, 4300
+	if e.Thorough() {
+		nAdd, nDel = 28000, 26500
+	}
+	h := newHistory(e, r)
+	spec := &specSet{live: map[[2]uint32]bool{}}
+	nviol := 0
+	ops, probes, delPresent, distinct := 0, 0, 0, 0
+	check := func(what string, rg rangeT, a uint32, form16 bool) {
+		b := u32b(a)
+		if form16 {
+			b = append([]byte{}, net.IP(b).To16()...)
+		}
+		pb := append([]byte{}, b...)
+		got := h.callContains(b)
+		h.scribbleOver(b)
+		probes++
+		want := 0
+		if spec.covered(a) {
+			want = 1
+		}
+		if got != want && nviol < 5 {
+			nviol++
+			e.Case("VIOL", "long-history-"+what, fmt.Sprintf("seed=%d", e.Seed), fmt.Sprintf("op=%d", ops), "probe="+hk.Hx(pb),
+				fmt.Sprintf("range=%d.%d.%d.%d/%d", rg.ip[0], rg.ip[1], rg.ip[2], rg.ip[3], rg.ones),
+				fmt.Sprintf("got=%d", got), fmt.Sprintf("want=%d", want),
+				fmt.Sprintf("adds_so_far=%d", distinct), fmt.Sprintf("removals_of_present_so_far=%d", delPresent), fmt.Sprintf("live_now=%d", len(spec.live)))
+		}
+	}
+	doAdd := func(rg rangeT) {
+		ip, mask := append([]byte{}, rg.ip[:]...), net.CIDRMask(rg.ones, 32)
+		c := h.callAdd(ip, mask)
+		h.scribbleOver(ip, mask)
+		ops++
+		if c != 0 && nviol < 5 {
+			nviol++
+			e.Case("VIOL", "long-history-add-failed", fmt.Sprintf("seed=%d", e.Seed), fmt.Sprintf("op=%d", ops), fmt.Sprintf("code=%d", c))
+		}
+		if rg.ones == 0 {
+			spec.all = true
+		} else {
+			spec.live[[2]uint32{rg.first(), uint32(rg.ones)}] = true
+		}
+	}
+	doRemove := func(rg rangeT) {
+		ip, mask := append([]byte{}, rg.ip[:]...), net.CIDRMask(rg.ones, 32)
+		c := h.callRemove(ip, mask)
+		h.scribbleOver(ip, mask)
+		ops++
+		if c != 0 && nviol < 5 {
+			nviol++
+			e.Case("VIOL", "long-history-remove-failed", fmt.Sprintf("seed=%d", e.Seed), fmt.Sprintf("op=%d", ops), fmt.Sprintf("code=%d", c))
+		}
+		if rg.ones == 0 {
+			spec.all = false
+		} else {
+			delete(spec.live, [2]uint32{rg.first(), uint32(rg.ones)})
+		}
+	}
+	// distinct ranges (as keys), prefix lengths 8..32, some nested / neighbouring
+	var rs []rangeT
+	seen := map[[2]uint32]bool{}
+	for len(rs) < nAdd {
+		rg := h.newRange(8)
+		h.known = h.known[:0]
+		if len(rs) > 0 && r.Chance(20) {
+			k := rs[r.Intn(len(rs))]
+			switch r.Intn(3) {
+			case 0:
+				rg.ip = k.ip // nested
+			case 1:
+				binary.BigEndian.PutUint32(rg.ip[:], k.last()+1)
+				rg.ones = k.ones
+			default:
+				binary.BigEndian.PutUint32(rg.ip[:], k.first()-1)
+				rg.ones = k.ones
+			}
+		}
+		key := [2]uint32{rg.first(), uint32(rg.ones)}
+		if seen[key] {
+			continue
+		}
+		seen[key] = true
+		rs = append(rs, rg)
+	}
+	for i, rg := range rs {
+		doAdd(rg)
+		distinct++
+		if r.Chance(3) { // a duplicate now and then
+			doAdd(rs[r.Intn(i+1)])
+		}
+		if r.Chance(5) {
+			k := rs[r.Intn(i+1)]
+			check("probe", k, k.first(), r.Chance(30))
+			check("probe", k, k.last()+1, false)
+		}
+	}
+	// removals of present ranges in random order, each probed right away
+	order := make([]int, len(rs))
+	for i := range order {
+		order[i] = i
+	}
+	for i := len(order) - 1; i > 0; i-- {
+		j := r.Intn(i + 1)
+		order[i], order[j] = order[j], order[i]
+	}
+	removed := order[:nDel]
+	for n, i := range removed {
+		rg := rs[i]
+		if spec.live[[2]uint32{rg.first(), uint32(rg.ones)}] {
+			delPresent++
+		}
+		doRemove(rg)
+		check("removed-range", rg, rg.first(), false)
+		check("removed-range", rg, rg.last(), r.Chance(30))
+		switch {
+		case r.Chance(2): // removal of a range that is not (any more) there
+			doRemove(rs[removed[r.Intn(n+1)]])
+		case r.Chance(2): // 0.0.0.0/0 on and off
+			doAdd(rangeT{})
+			check("probe", rg, rg.first(), false)
+			doRemove(rangeT{})
+		case r.Chance(3): // a kept range must still be there
+			k := rs[order[nDel+r.Intn(len(order)-nDel)]]
+			check("kept-range", k, k.first(), false)
+		}
+	}
+	// at the end: every removed range again, every kept range
+	for _, i := range removed {
+		check("removed-range-at-end", rs[i], rs[i].first(), false)
+		check("removed-range-at-end", rs[i], rs[i].last(), false)
+	}
+	for _, i := range order[nDel:] {
+		check("kept-range-at-end", rs[i], rs[i].first(), r.Chance(30))
+	}
+	e.Stats["long_history_ops"] = ops
+	e.Stats["long_history_distinct_adds"] = distinct
+	e.Stats["long_history_removals_of_present_ranges"] = delPresent
+	e.Stats["long_history_probes"] = probes
+	e.Stats["long_history_violations"] = nviol
+	e.Stats["long_history_judged_by"] = "Go-side live-set map (specification only; not replayed in the extracted model)"
+}
+
 func runC11(e *hk.Env) error {
 	if e.Replay != "" {
 		return replayFile(e, e.Replay)
@@ -774,6 +942,7 @@ func runC11(e *hk.Env) error {
 			small(e, r)
 		}
 	}
+	churn(e, e.Rng.Fork())
 	e.Stats["cases"] = e.Stats["histories"]
 	e.Sample("samples", "history kinds: small (1-40 ops, pool of 1-6 ranges, /0../32), crossing (250-300 distinct ranges, removal bursts before/at/after the 256th slot), crossing_fewlens (1-3 prefix lengths before the switch, other lengths after), long (50-600 random ops), dupfill (256 copies, zeroed, migrated), duppattern (Add X, Add Y, Add X, Remove X and variants)", 5)
 	return nil
